@@ -18,6 +18,8 @@ fn escape_char(c: char) -> Value {
         '"' => Value::Str("&quot;"),
         '\'' => Value::Str("&apos;"),
         '&' => Value::Str("&amp;"),
+        // a literal TAB inside an attribute value is normalised to a space by XML parsers
+        '\t' => Value::Str("&#x9;"),
         '\n' => Value::Str("&#xA;"),
         '\r' => Value::Str("&#xD;"),
         _ => Value::Char(c),
@@ -30,17 +32,20 @@ fn needs_xlsx_escape(c: char) -> bool {
     let cp = c as u32;
     // XML 1.0 forbidden: 0x00-0x08, 0x0B, 0x0C, 0x0E-0x1F
     // (0x09=TAB, 0x0A=LF, 0x0D=CR are valid in XML and handled above)
-    matches!(cp, 0x00..=0x08 | 0x0B | 0x0C | 0x0E..=0x1F)
+    // U+FFFE and U+FFFF are not XML characters either
+    matches!(cp, 0x00..=0x08 | 0x0B | 0x0C | 0x0E..=0x1F | 0xFFFE | 0xFFFF)
 }
 
-/// Returns true if `bytes` starts with `_xHHHH_` (7 bytes, 4 hex digits).
+/// Returns true if `bytes` starts with `_xHHHH` (6 bytes, 4 hex digits).
 /// A literal `_` at such a position must be written as `_x005F_` so the
 /// decoder does not misread the surrounding text as an escape sequence.
+/// The closing `_` is not required: it can be supplied by the escape emitted
+/// for the next character (`_x0041` followed by U+0001 would be written
+/// `_x0041_x0001_`).
 fn starts_xlsx_escape_pattern(bytes: &[u8]) -> bool {
-    bytes.len() >= 7
+    bytes.len() >= 6
         && bytes[0] == b'_'
         && bytes[1] == b'x'
-        && bytes[6] == b'_'
         && bytes[2].is_ascii_hexdigit()
         && bytes[3].is_ascii_hexdigit()
         && bytes[4].is_ascii_hexdigit()
@@ -59,7 +64,7 @@ fn starts_xlsx_escape_pattern(bytes: &[u8]) -> bool {
 pub fn escape_xml(s: &'_ str) -> Cow<'_, str> {
     // Fast path: if no special characters, return borrowed slice.
     let needs_escape = s.char_indices().any(|(i, c)| {
-        matches!(c, '<' | '>' | '"' | '\'' | '&' | '\n' | '\r')
+        matches!(c, '<' | '>' | '"' | '\'' | '&' | '\n' | '\r' | '\t')
             || needs_xlsx_escape(c)
             || (c == '_' && starts_xlsx_escape_pattern(&s.as_bytes()[i..]))
     });
